@@ -22,7 +22,7 @@ fn outcome_event(defset: &str, variant: &str, o: &run::Outcome, asn: &str) -> Va
 }
 
 fn compile(srcs: &[String]) -> run::Outcome {
-    run::compile_rasn(srcs, run::default_config()).0
+    run::compile_rasn_plain(srcs, run::default_config())
 }
 
 fn permutations(n: usize, rng: &mut StdRng, k: usize) -> Vec<Vec<usize>> {
@@ -208,6 +208,7 @@ fn revision_text(family: usize, p: u64) -> Vec<String> {
         4 => w(format!("Cho ::= CHOICE {{ a INTEGER (0..{p}), b BOOLEAN }}\nZs ::= a < Cho")),
         5 => w(format!("CLS ::= CLASS {{ &id INTEGER (0..{p}) UNIQUE, &Type }}\nZf ::= SEQUENCE {{ f CLS.&id }}")),
         6 => w(format!("Tpl {{INTEGER:max, T}} ::= SEQUENCE (SIZE (1..max)) OF T\nZinst ::= Tpl {{ {p}, BOOLEAN }}\nZz ::= SEQUENCE {{ m Zinst }}")),
+        8 => w(format!("hard INTEGER ::= {p}\nlim INTEGER ::= hard\nZc ::= SEQUENCE {{ f OCTET STRING (SIZE (1..lim)), g INTEGER (0..lim) OPTIONAL }}\nZt ::= INTEGER (0..lim)")),
         _ => vec![format!("RevA DEFINITIONS AUTOMATIC TAGS ::= BEGIN\nIMPORTS lim FROM RevB;\nZt ::= INTEGER (0..lim)\nEND\n"),
                   format!("RevB DEFINITIONS AUTOMATIC TAGS ::= BEGIN\nlim INTEGER ::= {p}\nEND\n")],
     }
@@ -215,7 +216,7 @@ fn revision_text(family: usize, p: u64) -> Vec<String> {
 
 pub fn events_for_revisions() -> Vec<Value> {
     let mut evs = vec![];
-    for family in 0..8 {
+    for family in 0..10 {
         for (this, other) in [(9u64, 70000u64), (70000, 9), (300, 5)] {
             let (a, b) = (revision_text(family, this), revision_text(family, other));
             let defset = format!("revision family {family} with {this}");
@@ -234,6 +235,24 @@ pub fn events_for_revisions() -> Vec<Value> {
 /// (X.680 13), disjoint names, headers that differ in tagging default, extensibility and IMPORTS.  The pipeline keeps one
 /// header per parsed module, not per module name: whichever way the three sources are ordered, in one source or several,
 /// the bindings are the same.
+/// Modules without assignments (an empty ModuleBody is legal, X.680 13.1) next to a module with some: every order of the sources,
+/// separately and in one source
+pub fn events_for_empty_modules() -> Vec<Value> {
+    let mut evs = vec![];
+    let srcs = ["Zeta DEFINITIONS AUTOMATIC TAGS ::= BEGIN END\n".to_string(), "Alpha DEFINITIONS ::= BEGIN\nEND\n".to_string(),
+                "Mid DEFINITIONS AUTOMATIC TAGS ::= BEGIN\nA ::= INTEGER (0..7)\nEND\n".to_string(), "Beta DEFINITIONS EXPLICIT TAGS EXTENSIBILITY IMPLIED ::= BEGIN END\n".to_string()];
+    let defset = "modules without assignments".to_string();
+    let mut rng = StdRng::seed_from_u64(7);
+    let mut first = true;
+    for o in std::iter::once((0..4).collect::<Vec<usize>>()).chain(permutations(4, &mut rng, 0)) {
+        let v: Vec<String> = o.iter().map(|x| srcs[*x].clone()).collect();
+        evs.push(outcome_event(&defset, &if first { "base: one source per module".to_string() } else { format!("sources permuted {o:?}") }, &compile(&v), &if first { v.join("\n") } else { String::new() }));
+        evs.push(outcome_event(&defset, &format!("modules permuted inside one source {o:?}"), &compile(&[v.join("\n")]), ""));
+        first = false;
+    }
+    evs
+}
+
 pub fn events_for_same_name() -> Vec<Value> {
     let mut evs = vec![];
     let tagdefs = ["IMPLICIT TAGS", "EXPLICIT TAGS", "AUTOMATIC TAGS", ""];
@@ -283,6 +302,7 @@ pub fn drive(args: &[String]) -> i32 {
     }
     events.extend(events_for_revisions());
     events.extend(events_for_same_name());
+    events.extend(events_for_empty_modules());
     util::write_ndjson(util::arg(args, "--trace").expect("--trace"), &events);
     eprintln!("c11: {} module sets, {} events", indexed.len(), events.len());
     0
